@@ -2,6 +2,7 @@ import PncProofs.SlabLemmas
 import PncProofs.BridgeLemmas
 import PncProofs.SlabReadLemmas
 import PncProofs.UamivReadEncode
+import PncProofs.WindRecThm
 /-
 C13 — memory-mapped and record-based CAMx readers agree.
 
@@ -740,6 +741,37 @@ theorem exUamiv_oneDay : UamivRead.OneDay exUamiv 19001 3 2 where
 example : (UamivRead.read exUamiv.encode).map (fun v => (v.nt, v.nz, v.data)) =
     some (2, 2, [[[[1, 2], [3, 4]], [[9, 10], [11, 12]]], [[[5, 6], [7, 8]], [[13, 14], [15, 16]]]]) := by
   rw [(uamiv_read_encode exUamiv 19001 3 2 exUamiv_oneDay).1]
+  rfl
+
+/-! ### wind files: the record reader (`wind/Read.py`) and the memory-mapped reader -/
+
+/-- **C13 (wind files).** For every wind file of at least two steps on a regular time axis (any whole-HHMM step up to
+a day, over any number of midnights), any number of layers, any grid of at least four cells, either header variant and
+any payload, the record reader presents exactly the steps' times and the U and V slab of every step and layer, and
+the memory-mapped reader presents exactly the encoded steps: the two agree through the content. -/
+theorem wind_readers_agree (cells nz h : Nat) (steps : List Wind.WStep) (start : SlabRead.DT) (step : Int)
+    (r : WindRec.RegW cells nz h steps start step) :
+    WindRec.read cells (Wind.encode steps) = some (WindRec.viewOf nz steps start step) ∧
+    Wind.read cells (Wind.encode steps) = some steps :=
+  ⟨WindRec.read_encode r, Wind.read_encode cells nz h steps r.wf⟩
+
+/-- a two-step, one-layer wind file on a 2 x 2 grid with the three-word header: 23:00 and 00:00 of the next day -/
+def exWind : List Wind.WStep :=
+  [⟨f32OfNat 2300, 19200, some 0, [[1, 2, 3, 4], [5, 6, 7, 8]]⟩, ⟨f32OfNat 0, 19201, some 0, [[9, 10, 11, 12], [13, 14, 15, 16]]⟩]
+
+theorem exWind_reg : WindRec.RegW 4 1 3 exWind (19200, 2300) 100 := by
+  refine ⟨⟨by decide, by decide, by decide, by decide, by decide⟩, by decide, by decide, by decide, by decide, ?_⟩
+  intro i hi
+  have e0 : WindRec.dtOf (exWind[0]'(by decide)) = SlabRead.iter (19200, 2300) 100 0 := by decide +kernel
+  have e1 : WindRec.dtOf (exWind[1]'(by decide)) = SlabRead.iter (19200, 2300) 100 1 := by decide +kernel
+  have h2 : i < 2 := hi
+  match i, h2 with
+  | 0, _ => exact e0
+  | 1, _ => exact e1
+
+example : (WindRec.read 4 (Wind.encode exWind)).map (fun v => (v.nt, v.nz, v.times, v.u, v.v)) =
+    some (2, 1, [(19200, 2300), (19201, 0)], [[[1, 2, 3, 4]], [[9, 10, 11, 12]]], [[[5, 6, 7, 8]], [[13, 14, 15, 16]]]) := by
+  rw [(wind_readers_agree 4 1 3 exWind (19200, 2300) 100 exWind_reg).1]
   rfl
 
 end Props.C13
